@@ -416,6 +416,20 @@ class Interp:
                 bop = e["op"][:-1]
                 v = self.ev(p, {"k": "bin", "op": bop, "l": {"k": "int", "v": old}, "r": {"k": "int", "v": v}}) \
                     if isinstance(old, int) and isinstance(v, int) else TOP
+            if v is TOP and e["op"] == "=" and key is not None and "*" not in l.get("t", "*"):
+                # aggregate copy (a = b with struct operands): copy what is known below b, forget what was known below a
+                rk = self.canon(p, self.key_of(p, e["r"]))
+                if rk is not None and rk != key:
+                    below = {}
+                    for src in (self.inputs, p.env):
+                        for k2, v2 in src.items():
+                            if k2.startswith(rk + "."):
+                                below[k2[len(rk):]] = self.read(p, k2)
+                    if below:
+                        self.clobber(p, self.canon(p, key), keep_self=True)
+                        for suf, v2 in below.items():
+                            self.write(p, key + suf, v2, e.get("ln"))
+                        return TOP
             if v is TOP and e["op"] == "=" and l.get("k") == "var" and "*" in l.get("t", ""):
                 rk = self.canon(p, lvalue_key(e["r"], fn))
                 if rk is not None and not rk.startswith("&") and rk != key:
@@ -716,7 +730,10 @@ def inline_model(prog, names, fallback=None, depth=0):
                             eff[k] = t[2]       # written through a pointer to the caller's variable that was handed further down
                         elif "->" in k or "." in k or "[" in k:
                             base = k.split("->")[0].split(".")[0].split("[")[0]
-                            if base in pnames or any(l["n"] == base for l in cf.locals):
+                            loc = [l for l in cf.locals if l["n"] == base]
+                            if loc and "*" not in loc[0].get("t", "*") and "->" not in k:
+                                continue        # a field / element of the callee's own local aggregate: invisible to the caller
+                            if base in pnames or loc:
                                 return TOP      # written through something we cannot name in the caller
                             eff[k] = t[2]
                     if effects is None:
